@@ -24,7 +24,7 @@ std::string primary_property(const std::string &profile) {
     if (profile == "refine") return "C13";
     if (profile == "alloc") return "C14";
     if (profile == "sym") return "C16";
-    if (profile == "leak") return "C17";
+    if (profile == "leak" || profile == "symleak") return "C17";
     if (profile == "carry") return "C18";
     if (profile == "pipe") return "C03";
     if (profile == "term") return "C04";
@@ -665,11 +665,22 @@ Outcome run_case(Case &c, const RunnerOpts &ro) {
 
     SvxState svx_state;
     bool last_fact_ok = false;
-    bool leakprof = c.profile == "leak";
+    bool leakprof = c.profile == "leak" || c.profile == "symleak";
     if (leakprof) sim::forget_live_blocks();
     int reps = leakprof ? 2 : 1;
+    bool symprof = c.profile == "sym" || c.profile == "symleak";
     size_t live_after_rep[2] = {0, 0};
     for (int rep = 0; rep < reps; ++rep) {
+    if (leakprof && c.colperm <= 3) {
+        // the ordering call belongs to the accounted sequence too (get_perm_c has its own early returns)
+        sim::RunConfig c0; c0.step_budget = 1L << 40;
+        sim::begin_run(c0); sim::reset_alloc_count(); sim::arm_alloc(true);
+        drv.get_perm_c_lib(c.colperm);
+        sim::arm_alloc(false); sim::RunStats s0; sim::end_run(s0);
+        out.probes["ordering_calls_leak_checked"]++;
+        if (c.M.nnz() == n) out.probes["ordering_calls_empty_adjacency"]++;
+        if (drv.get_perm_c() != x.base_perm_c) add_viol(out, "C10", "ordering_not_repeatable", "get_perm_c gave a different permutation for the same pattern", -1);
+    }
     for (int opi = 0; opi < (int)c.ops.size(); ++opi) {
         OpSpec &op = c.ops[opi];
         g_op = opi;
@@ -752,12 +763,12 @@ Outcome run_case(Case &c, const RunnerOpts &ro) {
         bool a_same = drv.A_hash() == a_hash0;
         bool histlike = c.profile == "hist" || c.profile == "leak" || c.profile == "carry";
         if (op.kind == OP_DESTROY || op.kind == OP_ROUTE_FINALIZE) continue;
-        if ((c.profile == "svx" || c.profile == "sym" || histlike) && op.kind == OP_GSSVX) {
+        if ((c.profile == "svx" || symprof || histlike) && op.kind == OP_GSSVX) {
             if (op.x.nprocs <= 0) { out.probes["illegal_argument_calls"]++; if (info != -1) add_viol(out, "C15", "illegal_nprocs_not_reported", fmt("nprocs=%d info=%ld", op.x.nprocs, info), opi); continue; }
             if (op.x.lwork == -1) { out.probes["workspace_queries"]++; continue; }
             if (leakprof && op.x.lwork > 0 && info > n + 1) { out.probes["workspace_too_small_returns"]++; continue; }
             eval_svx(x, opi, op, xo, A_before, Bin, a_hash0, b_hash0, x_hash0, svx_state);
-            if (c.profile == "sym" && (info == 0 || info == n + 1)) {
+            if (symprof && (info == 0 || info == n + 1)) {
                 // C16: every pivot is the original diagonal entry, i.e. the row permutation equals the (final) column permutation
                 std::vector<int> pr2 = drv.get_perm_r(), pc2 = drv.get_perm_c();
                 out.probes["sym_runs_checked"]++;
